@@ -141,6 +141,11 @@ class ClientGenerator:
         # Default output_package if not set
         if not output_package:
             raise ValueError("Output package name cannot be empty")
+        # Package paths must be dotted Python identifiers: an empty component (".", "a..b") is dropped by
+        # pkg_to_path, so "." would resolve to the project root itself (which force mode removes)
+        for pkg in (output_package, core_package):
+            if pkg is not None and not all(part.isidentifier() for part in pkg.split(".")):
+                raise ValueError(f"Invalid package name '{pkg}': expected dotted identifiers (e.g. 'pkg.client')")
         out_dir = pkg_to_path(output_package)
 
         # --- Robust Defaulting for core_package ---
